@@ -55,7 +55,7 @@ GROUPS = {
 }
 # which groups each property's theorems are about
 BY_PROPERTY = {
-    'C01': ['jobs', 'setup'],
+    'C01': ['jobs', 'loss', 'drain', 'setup'],
     'C04': ['loss', 'jobs', 'drain', 'setup'],
     'C05': ['limits', 'jobs', 'setup'],
     'C06': ['limits', 'worker_signals', 'setup'],
